@@ -54,26 +54,26 @@ def tagFacts : Facts where
     (⟨true, .slice_ptr_string⟩, 16, 22)
   ]
   rows := [
-    ⟨.min, 70, 2414, [⟨42, none⟩]⟩,
-    ⟨.min, 71, 2463, [⟨46, none⟩, ⟨43, none⟩]⟩,
-    ⟨.max, 70, 2414, [⟨42, none⟩]⟩,
-    ⟨.max, 72, 2473, [⟨46, none⟩, ⟨43, none⟩]⟩,
-    ⟨.length, 70, 2430, [⟨46, none⟩]⟩,
-    ⟨.length, 70, 2432, [⟨43, none⟩]⟩,
-    ⟨.email, 73, 2251, [⟨46, none⟩]⟩,
-    ⟨.url, 73, 2251, [⟨46, none⟩]⟩,
-    ⟨.uuid, 73, 2251, [⟨46, none⟩]⟩,
-    ⟨.regex, 70, 2437, [⟨46, none⟩]⟩,
-    ⟨.positive, 74, 2404, [⟨42, none⟩]⟩,
-    ⟨.negative, 74, 2404, [⟨42, none⟩]⟩,
-    ⟨.nonnegative, 74, 2404, [⟨42, none⟩]⟩,
-    ⟨.nonpositive, 74, 2404, [⟨42, none⟩]⟩,
-    ⟨.nonempty, 75, 2185, [⟨46, none⟩]⟩,
-    ⟨.nonempty, 75, 2187, [⟨43, none⟩]⟩,
-    ⟨.gt, 70, 2414, [⟨42, none⟩]⟩,
-    ⟨.gte, 70, 2414, [⟨42, none⟩]⟩,
-    ⟨.lt, 70, 2414, [⟨42, none⟩]⟩,
-    ⟨.lte, 70, 2414, [⟨42, none⟩]⟩
+    ⟨.min, 70, 2417, [⟨42, none⟩]⟩,
+    ⟨.min, 71, 2466, [⟨46, none⟩, ⟨43, none⟩]⟩,
+    ⟨.max, 70, 2417, [⟨42, none⟩]⟩,
+    ⟨.max, 72, 2476, [⟨46, none⟩, ⟨43, none⟩]⟩,
+    ⟨.length, 70, 2433, [⟨46, none⟩]⟩,
+    ⟨.length, 70, 2435, [⟨43, none⟩]⟩,
+    ⟨.email, 73, 2254, [⟨46, none⟩]⟩,
+    ⟨.url, 73, 2254, [⟨46, none⟩]⟩,
+    ⟨.uuid, 73, 2254, [⟨46, none⟩]⟩,
+    ⟨.regex, 70, 2440, [⟨46, none⟩]⟩,
+    ⟨.positive, 74, 2407, [⟨42, none⟩]⟩,
+    ⟨.negative, 74, 2407, [⟨42, none⟩]⟩,
+    ⟨.nonnegative, 74, 2407, [⟨42, none⟩]⟩,
+    ⟨.nonpositive, 74, 2407, [⟨42, none⟩]⟩,
+    ⟨.nonempty, 75, 2188, [⟨46, none⟩]⟩,
+    ⟨.nonempty, 75, 2190, [⟨43, none⟩]⟩,
+    ⟨.gt, 70, 2417, [⟨42, none⟩]⟩,
+    ⟨.gte, 70, 2417, [⟨42, none⟩]⟩,
+    ⟨.lt, 70, 2417, [⟨42, none⟩]⟩,
+    ⟨.lte, 70, 2417, [⟨42, none⟩]⟩
   ]
   ifaces := [
     (42, [13, 2]),
@@ -84,40 +84,40 @@ def tagFacts : Facts where
 /-- NON-PROPERTY table: the rule names types/struct.go implements but docs/tags.md does not list; same indices into
     `tagFacts.names`; `(rule name, function, line, cases)`.  Read by C13 (gozodgen vs FromStruct); no C06 theorem. -/
 def tagSwitchesX : List (String × Nat × Nat × List CaseTy) := [
-    ⟨"enum", 76, 2484, [⟨0, some 1⟩, ⟨2, some 3⟩]⟩,
-    ⟨"literal", 79, 2504, [⟨0, some 1⟩, ⟨2, some 3⟩, ⟨77, some 78⟩]⟩,
-    ⟨"default", 85, 2520, [⟨0, some 1⟩, ⟨0, some 24⟩, ⟨2, some 3⟩, ⟨2, some 25⟩, ⟨2, some 4⟩, ⟨2, some 26⟩, ⟨2, some 5⟩, ⟨2, some 27⟩, ⟨2, some 6⟩, ⟨2, some 28⟩, ⟨2, some 7⟩, ⟨2, some 29⟩, ⟨2, some 8⟩, ⟨2, some 30⟩, ⟨2, some 9⟩, ⟨2, some 31⟩, ⟨2, some 10⟩, ⟨2, some 32⟩, ⟨2, some 11⟩, ⟨2, some 33⟩, ⟨2, some 12⟩, ⟨2, some 34⟩, ⟨13, some 15⟩, ⟨13, some 36⟩, ⟨13, some 14⟩, ⟨13, some 35⟩, ⟨77, some 78⟩, ⟨77, some 80⟩, ⟨16, some 17⟩, ⟨16, some 18⟩, ⟨16, some 20⟩, ⟨16, some 21⟩, ⟨44, some 81⟩, ⟨44, some 82⟩, ⟨16, some 37⟩, ⟨16, some 38⟩, ⟨16, some 40⟩, ⟨16, some 41⟩, ⟨44, some 83⟩, ⟨44, some 84⟩, ⟨45, some 84⟩]⟩,
-    ⟨"default", 85, 2643, []⟩,
-    ⟨"default", 85, 2656, []⟩,
-    ⟨"default", 85, 2676, []⟩,
-    ⟨"default", 85, 2696, []⟩,
-    ⟨"default", 85, 2715, []⟩,
-    ⟨"default", 85, 2734, []⟩,
-    ⟨"default", 85, 2746, []⟩,
-    ⟨"default", 85, 2765, []⟩,
-    ⟨"default", 85, 2784, []⟩,
-    ⟨"default", 85, 2803, []⟩,
-    ⟨"prefault", 86, 3226, [⟨0, some 1⟩, ⟨0, some 24⟩, ⟨2, some 3⟩, ⟨2, some 25⟩, ⟨2, some 4⟩, ⟨2, some 26⟩, ⟨2, some 5⟩, ⟨2, some 27⟩, ⟨2, some 6⟩, ⟨2, some 28⟩, ⟨2, some 7⟩, ⟨2, some 29⟩, ⟨2, some 8⟩, ⟨2, some 30⟩, ⟨2, some 9⟩, ⟨2, some 31⟩, ⟨2, some 10⟩, ⟨2, some 32⟩, ⟨2, some 11⟩, ⟨2, some 33⟩, ⟨2, some 12⟩, ⟨2, some 34⟩, ⟨13, some 15⟩, ⟨13, some 36⟩, ⟨13, some 14⟩, ⟨13, some 35⟩, ⟨77, some 78⟩, ⟨77, some 80⟩, ⟨16, some 17⟩, ⟨16, some 18⟩, ⟨44, some 81⟩]⟩,
-    ⟨"prefault", 86, 3349, []⟩,
-    ⟨"prefault", 86, 3362, []⟩,
-    ⟨"prefault", 86, 3383, []⟩,
-    ⟨"nilable", 87, 2280, [⟨0, some 1⟩, ⟨2, some 3⟩, ⟨2, some 7⟩, ⟨13, some 15⟩, ⟨13, some 14⟩, ⟨77, some 78⟩]⟩,
-    ⟨"finite", 74, 2404, [⟨42, none⟩]⟩,
-    ⟨"multipleof", 70, 2414, []⟩,
-    ⟨"includes", 70, 2441, [⟨46, none⟩]⟩,
-    ⟨"startswith", 70, 2445, [⟨46, none⟩]⟩,
-    ⟨"endswith", 70, 2449, [⟨46, none⟩]⟩,
-    ⟨"ipv4", 73, 2251, [⟨46, none⟩]⟩,
-    ⟨"ipv6", 73, 2251, [⟨46, none⟩]⟩,
-    ⟨"cidrv4", 73, 2251, [⟨46, none⟩]⟩,
-    ⟨"cidrv6", 73, 2251, [⟨46, none⟩]⟩,
-    ⟨"cuid", 73, 2251, [⟨46, none⟩]⟩,
-    ⟨"cuid2", 73, 2251, [⟨46, none⟩]⟩,
-    ⟨"jwt", 73, 2251, [⟨46, none⟩]⟩,
-    ⟨"iso_datetime", 73, 2251, [⟨46, none⟩]⟩,
-    ⟨"iso_date", 73, 2251, [⟨46, none⟩]⟩,
-    ⟨"iso_time", 73, 2251, [⟨46, none⟩]⟩,
-    ⟨"iso_duration", 73, 2251, [⟨46, none⟩]⟩
+    ⟨"enum", 76, 2487, [⟨0, some 1⟩, ⟨2, some 3⟩]⟩,
+    ⟨"literal", 79, 2507, [⟨0, some 1⟩, ⟨2, some 3⟩, ⟨77, some 78⟩]⟩,
+    ⟨"default", 85, 2523, [⟨0, some 1⟩, ⟨0, some 24⟩, ⟨2, some 3⟩, ⟨2, some 25⟩, ⟨2, some 4⟩, ⟨2, some 26⟩, ⟨2, some 5⟩, ⟨2, some 27⟩, ⟨2, some 6⟩, ⟨2, some 28⟩, ⟨2, some 7⟩, ⟨2, some 29⟩, ⟨2, some 8⟩, ⟨2, some 30⟩, ⟨2, some 9⟩, ⟨2, some 31⟩, ⟨2, some 10⟩, ⟨2, some 32⟩, ⟨2, some 11⟩, ⟨2, some 33⟩, ⟨2, some 12⟩, ⟨2, some 34⟩, ⟨13, some 15⟩, ⟨13, some 36⟩, ⟨13, some 14⟩, ⟨13, some 35⟩, ⟨77, some 78⟩, ⟨77, some 80⟩, ⟨16, some 17⟩, ⟨16, some 18⟩, ⟨16, some 20⟩, ⟨16, some 21⟩, ⟨44, some 81⟩, ⟨44, some 82⟩, ⟨16, some 37⟩, ⟨16, some 38⟩, ⟨16, some 40⟩, ⟨16, some 41⟩, ⟨44, some 83⟩, ⟨44, some 84⟩, ⟨45, some 84⟩]⟩,
+    ⟨"default", 85, 2646, []⟩,
+    ⟨"default", 85, 2659, []⟩,
+    ⟨"default", 85, 2679, []⟩,
+    ⟨"default", 85, 2699, []⟩,
+    ⟨"default", 85, 2718, []⟩,
+    ⟨"default", 85, 2737, []⟩,
+    ⟨"default", 85, 2749, []⟩,
+    ⟨"default", 85, 2768, []⟩,
+    ⟨"default", 85, 2787, []⟩,
+    ⟨"default", 85, 2806, []⟩,
+    ⟨"prefault", 86, 3229, [⟨0, some 1⟩, ⟨0, some 24⟩, ⟨2, some 3⟩, ⟨2, some 25⟩, ⟨2, some 4⟩, ⟨2, some 26⟩, ⟨2, some 5⟩, ⟨2, some 27⟩, ⟨2, some 6⟩, ⟨2, some 28⟩, ⟨2, some 7⟩, ⟨2, some 29⟩, ⟨2, some 8⟩, ⟨2, some 30⟩, ⟨2, some 9⟩, ⟨2, some 31⟩, ⟨2, some 10⟩, ⟨2, some 32⟩, ⟨2, some 11⟩, ⟨2, some 33⟩, ⟨2, some 12⟩, ⟨2, some 34⟩, ⟨13, some 15⟩, ⟨13, some 36⟩, ⟨13, some 14⟩, ⟨13, some 35⟩, ⟨77, some 78⟩, ⟨77, some 80⟩, ⟨16, some 17⟩, ⟨16, some 18⟩, ⟨44, some 81⟩]⟩,
+    ⟨"prefault", 86, 3352, []⟩,
+    ⟨"prefault", 86, 3365, []⟩,
+    ⟨"prefault", 86, 3386, []⟩,
+    ⟨"nilable", 87, 2283, [⟨0, some 1⟩, ⟨2, some 3⟩, ⟨2, some 7⟩, ⟨13, some 15⟩, ⟨13, some 14⟩, ⟨77, some 78⟩]⟩,
+    ⟨"finite", 74, 2407, [⟨42, none⟩]⟩,
+    ⟨"multipleof", 70, 2417, []⟩,
+    ⟨"includes", 70, 2444, [⟨46, none⟩]⟩,
+    ⟨"startswith", 70, 2448, [⟨46, none⟩]⟩,
+    ⟨"endswith", 70, 2452, [⟨46, none⟩]⟩,
+    ⟨"ipv4", 73, 2254, [⟨46, none⟩]⟩,
+    ⟨"ipv6", 73, 2254, [⟨46, none⟩]⟩,
+    ⟨"cidrv4", 73, 2254, [⟨46, none⟩]⟩,
+    ⟨"cidrv6", 73, 2254, [⟨46, none⟩]⟩,
+    ⟨"cuid", 73, 2254, [⟨46, none⟩]⟩,
+    ⟨"cuid2", 73, 2254, [⟨46, none⟩]⟩,
+    ⟨"jwt", 73, 2254, [⟨46, none⟩]⟩,
+    ⟨"iso_datetime", 73, 2254, [⟨46, none⟩]⟩,
+    ⟨"iso_date", 73, 2254, [⟨46, none⟩]⟩,
+    ⟨"iso_time", 73, 2254, [⟨46, none⟩]⟩,
+    ⟨"iso_duration", 73, 2254, [⟨46, none⟩]⟩
   ]
 
 end Gozod.Gen
